@@ -35,6 +35,40 @@ def _site(depth=2):
     return (f.f_code.co_filename.rsplit("/", 1)[-1], f.f_code.co_name, f.f_lineno)
 
 
+class LazyPicks:
+    """result of rng.choice(a, size=n, p=p): n independent picks, each decided (and explored) when it is first looked at"""
+
+    def __init__(self, rng, a, p, n):
+        self.rng, self.a, self.p, self.n = rng, a, p, n
+        self.vals = {}
+
+    def __deepcopy__(self, memo):
+        return self
+
+    def __len__(self):
+        return self.n
+
+    def __getitem__(self, k):
+        if isinstance(k, SymInt):
+            k = k.__index__()
+        if isinstance(k, slice):
+            raise core.Unsupported("slice of a block of picks")
+        if not -self.n <= k < self.n:
+            raise core.emulated(IndexError("index out of bounds"))
+        k %= self.n
+        if k not in self.vals:
+            self.vals[k] = self.rng.choice(self.a, p=self.p)
+        return self.vals[k]
+
+    def __iter__(self):
+        if self.n > 8:
+            raise core.Unsupported("iteration over a block of more than 8 picks")
+        return iter([self[k] for k in range(self.n)])
+
+    def tolist(self):
+        return list(self)
+
+
 class SymRng:
     """rng.choice explores every element of positive probability."""
 
@@ -54,7 +88,13 @@ class SymRng:
     def choice(self, a, size=None, replace=True, p=None, axis=0, shuffle=True):
         c = core.ctx()
         if size is not None:
-            raise core.Unsupported("rng.choice with size")
+            if isinstance(size, (tuple, list)):
+                if len(size) != 1:
+                    raise core.Unsupported("rng.choice with a multi-dimensional size")
+                size = size[0]
+            if not replace:
+                raise core.Unsupported("rng.choice without replacement")
+            return LazyPicks(self, a, p, int(size))
         if isinstance(a, (int, SymInt)):
             items = list(range(int(a)))
         elif isinstance(a, Arr):
